@@ -542,7 +542,15 @@ class Prov:
                             self.stack.pop()
                     return v
             if isinstance(node.get('base'), dict):
-                return self.project_field(self.eval(afn, node['base'], self.envs[envid], d + 1), adt, name, d)
+                # `T { a: .., ..base }` where base is (through a recursive call) this very literal: loop-carried value
+                bkey = ('B', nodeid, fnkey, name)
+                if bkey in self.stack:
+                    return ('rec', 'base:' + name)
+                self.stack.append(bkey)
+                try:
+                    return self.project_field(self.eval(afn, node['base'], self.envs[envid], d + 1), adt, name, d)
+                finally:
+                    self.stack.pop()
             return ('unknown', 'agg-field-missing:' + name)
         if (adt, name) in self.origin_fields or self.is_origin_adt(adt):
             return ('field', base, adt, name)
